@@ -131,20 +131,31 @@ def simulate(num, maxtok=30, maxnl=0, seed=0, sigma=None, start='Program',
     return r, list(sents.values())
 
 
-def model_text(name, start, sigma, maxtok, maxnl, relax=()):
-    mc = ('---- MODULE MC_%s ----\nEXTENDS ES5Grammar\nSigmaDef == {%s}\n'
+# implementation models that extend the derivation machine: module, the
+# invariants TLC checks on it, and the Emit invariant that also prints what
+# the model says about the sentence
+LAYER2 = {
+    'slash': ('SlashImpl', ['SlashDecisionsOK'], 'EmitSlash'),
+}
+
+
+def model_text(name, start, sigma, maxtok, maxnl, relax=(), layer2=None):
+    module, invs, emit = LAYER2[layer2] if layer2 else ('ES5Grammar', [],
+                                                        'Emit')
+    mc = ('---- MODULE MC_%s ----\nEXTENDS %s\nSigmaDef == {%s}\n'
           'RelaxDef == {%s}\n====\n' % (
-              name, ', '.join(json.dumps(s) for s in sigma),
+              name, module, ', '.join(json.dumps(s) for s in sigma),
               ', '.join(json.dumps(s) for s in relax)))
     cfg = ('SPECIFICATION Spec\nCONSTANTS\n Sigma <- SigmaDef\n'
            ' MaxTok = %d\n MaxNL = %d\n Start = %s\n Relax <- RelaxDef\n'
            'INVARIANT TypeOK\nINVARIANT NeedOK\nINVARIANT Balanced\n'
-           'INVARIANT Emit\n' % (maxtok, maxnl, json.dumps(start)))
+           % (maxtok, maxnl, json.dumps(start)))
+    cfg += ''.join('INVARIANT %s\n' % i for i in invs + [emit])
     return mc, cfg
 
 
 def run_theme(name, tier='quick', maxtok=None, maxnl=None, workers=2,
-              sigma=None, start=None, relax=()):
+              sigma=None, start=None, relax=(), layer2=None):
     st, sg, bounds = THEMES[name]
     st = start or st
     sg = sigma or sg
@@ -153,10 +164,13 @@ def run_theme(name, tier='quick', maxtok=None, maxnl=None, workers=2,
         mt = maxtok
     if maxnl is not None:
         mn = maxnl
-    mc, cfg = model_text(name, st, sg, mt, mn, relax)
+    mc, cfg = model_text(name, st, sg, mt, mn, relax, layer2)
+    # -continue: a violated Layer 2 invariant is a finding about the
+    # modelled implementation, the sentences are still all wanted
     r = run_tlc('MC_' + name, cfg='MC_%s.cfg' % name, cfg_text=cfg,
-                modules={'MC_' + name: mc}, workers=workers, heap='6g')
-    if r.violated:
+                modules={'MC_' + name: mc}, workers=workers, heap='6g',
+                extra=('-continue',) if layer2 else ())
+    if r.violated and not (layer2 and r.violated in LAYER2[layer2][1]):
         raise MachineryError('ES5Grammar invariant %s violated in theme %s'
                              % (r.violated, name))
     sents = parse_lines(r.lines, theme=name)
